@@ -374,7 +374,7 @@ CHECKS["C08"] = {
     "units": [
         {"pkg": ".", "run": "^TestVerif_C08_", "inst": ["store_message.go", "internal/queue/simple.go", "internal/queue/priority.go"], Q: {"timeout": 900}, T: {"timeout": 3400, "shards": 12}},
     ],
-    "mandatory_labels": {"all": ["pipeline/dfs-schedules", "pipeline/registration-between-lookup-and-park", "pipeline/undecryptable-below-decryptable", "pipeline/with-cancel", "pipeline/arrival-beyond-key-window"]},
+    "mandatory_labels": {"all": ["pipeline/dfs-schedules", "pipeline/registration-between-lookup-and-park", "pipeline/undecryptable-below-decryptable", "pipeline/with-cancel", "pipeline/arrival-beyond-key-window", "group-context"]},
 }
 
 # ---- layers and dimensions added after the first version (see DESIGN.md section 9 and appendix C.3)
@@ -399,6 +399,8 @@ _ADDED = {
 }
 for _k, _v in _ADDED.items():
     CHECKS[_k]["level_text"] += ". " + _v
+_ADDED4 = {"C08": "Group-context layer: two real replicas; the sender's announcement and messages reach the member before / after its activation in generated orders (live handler and catch-up over the log); every message must be delivered on the event bus and nothing stays parked once the state is stable."}
+CHECKS["C08"]["level_text"] += ". " + _ADDED4["C08"]
 _ADDED3 = {"C07": "Service layer: generated sequences in which enqueue / discard / accept / block / unblock go through the protocol service's RPCs, compared with the same reference lifecycle."}
 CHECKS["C07"]["level_text"] += ". " + _ADDED3["C07"]
 _ADDED2 = {"C02": "Concurrent half: controlled schedules (DFS + rapid) of overlapping opens (with duplicates) and registration / re-delivery on an instrumented secret store; afterwards everything sealed after the registered counter opens in order."}
